@@ -123,8 +123,71 @@ def shard(shard_no, nshards, seed, tier, extra):
     return res.to_dict()
 
 
+def miri_requests(shard_no, nshards, seed):
+    rng = common.rng_for(seed, "c01-miri", shard_no)
+    B = evm.boundary_constants()
+    reqs = []
+    for i in range(14):
+        if i % 3 == 0:
+            code = bytes(rng.getrandbits(8) for _ in range(rng.choice([3, 10, 40])))
+        elif i % 3 == 1:
+            code, _ = progs.sinks(rng, B)
+            code = code[:400]
+        else:
+            code, _ = progs.mask_shift(rng)
+        reqs.append({"op": "analyze", "code": code.hex(), "stage": "analyze", "small_hashes": 3, "monitor": False,
+                     "cfg": {"permissive": rng.random() < 0.5, "iters": 2, "forks": 2},
+                     "wd": {"every": 10, "stop_at": 3000}})
+    return reqs
+
+
+def valgrind_shard(shard_no, nshards, seed, tier, extra):
+    from vlib import sanitize
+    res = common.Result()
+    rng = common.rng_for(seed, "c01-valgrind", shard_no)
+    B = evm.boundary_constants()
+    corpus = sorted(glob.glob(os.path.join(common.VERIF, "corpus", "*.hex")))
+    small = [bytes.fromhex(open(p).read().strip()) for p in corpus if os.path.getsize(p) < 3000]
+    d = sanitize.valgrind_driver("rel")
+    sent = []
+    for i in range(22):
+        if i % 4 == 3:
+            code, _ = progs.mutate_contract(rng, rng.choice(small), B)
+        elif i % 4 == 2:
+            code, _ = progs.mask_shift(rng)
+        else:
+            code, _ = progs.sinks(rng, B)
+        req = {"op": "analyze", "code": code.hex(), "stage": "analyze", "cfg": rand_cfg(rng), "wd": {"every": 100, "stop_at": 30000}}
+        r = d.call(req, timeout=600)
+        sent.append(req)
+        res.evaluations += 1
+        if r.get("class") in ("ok", "err"):
+            res.judged += 1
+            res.count("valgrind_cases_completed")
+        elif r.get("class") == "panic":
+            res.judged += 1
+            res.violation("c01:panic:%s:%s:%s" % ("/".join((r.get("file") or "?").split("/")[-3:]), r.get("line"), msg_class(r.get("msg"))),
+                          "%s (under valgrind)" % r.get("msg"), {"code": code.hex(), "request": {k: v for k, v in req.items() if k != "code"}, "profile": "rel"})
+        else:
+            res.inconc("valgrind:driver:%s" % r.get("class"))
+            break
+    reports, rc, tail = sanitize.valgrind_finish(d)
+    res.count("valgrind_reports", len(reports))
+    for rep in reports:
+        res.violation("c01:valgrind:%s:%s" % (rep["kind"].split(" of size")[0].replace(" ", "-"), rep["frame"]), rep["text"][:500],
+                      {"requests": sent[-3:], "under": "valgrind memcheck"})
+    if res.judged:
+        res.nontriv("valgrind-shard-%d" % shard_no)
+    return res.to_dict()
+
+
 def run(tier, seed, t0):
     res = common.Result.merge(common.run_sharded(shard, seed, tier))
+    if tier == "thorough":
+        from vlib import sanitize
+        m = sanitize.miri_layer(PROP, miri_requests, seed, tier)
+        v = common.Result.merge(common.run_sharded(valgrind_shard, seed, tier))
+        res = common.Result.merge([res.to_dict(), m.to_dict(), v.to_dict()])
     return common.finish(
         PROP, tier, seed, res, "exploration",
         "raw random byte strings (1..600 bytes, some 24 576); structured stack-aware programs that put boundary "
